@@ -45,6 +45,14 @@ static unsigned char *mutate(const pkt_t *p,const char *mut,long *bytes,link_t *
 }
 #ifdef XIPH_VORBIS_VERIF
 extern int *vorbis_verif_fit, vorbis_verif_nfit, *vorbis_verif_ybuf, vorbis_verif_ylen;   /* probes in lib/floor1.c */
+extern void (*vorbis_verif_spectrum)(int stage,int ch,const float *v,long n);
+/* spectral vectors of the packet being decoded: [stage][channel][bin], kept only for small blocks and few channels */
+#define SPEC_CH 4
+#define SPEC_N 256
+static float g_spec[2][SPEC_CH][SPEC_N]; static long g_specn[2][SPEC_CH]; static int g_spec_seen;
+static void spec_probe(int stage,int ch,const float *v,long n){ if(stage<0||stage>1||ch<0||ch>=SPEC_CH||n>SPEC_N) return; memcpy(g_spec[stage][ch],v,n*sizeof(float)); g_specn[stage][ch]=n; g_spec_seen=1; }
+static void ev_spec(const char *key,int stage,int nch){ char t[SPEC_N*14+8]; ev_arr_begin(key); for(int c=0;c<nch&&c<SPEC_CH;c++){ size_t o=0; o+=sprintf(t+o,"["); for(long i=0;i<g_specn[stage][c];i++){ float f=g_spec[stage][c][i]; long q=(long)f; o+=sprintf(t+o,"%s%ld",i?",":"",((float)q==f&&q>-100000&&q<100000)?q:999999); } sprintf(t+o,"]"); ev_arr_raw(t); } ev_arr_end(); }
+static void ev_spec_expected(const char *key,const char *list){ char t[SPEC_N*14+8]; ev_arr_begin(key); const char *q=list; while(*q){ size_t o=0; o+=sprintf(t+o,"["); int first=1; while(*q&&*q!='/'){ long v=strtol(q,(char**)&q,10); o+=sprintf(t+o,"%s%ld",first?"":",",v); first=0; if(*q==',')q++; } sprintf(t+o,"]"); ev_arr_raw(t); if(*q=='/')q++; } ev_arr_end(); }
 #endif
 static long g_packed_bits;
 static unsigned char *pack_fields(char **tok,int from,int nt,long *bytes){
@@ -124,10 +132,13 @@ static void cmd(char **tok,int nt){
     if(rnd){ rng_t r; r.s=(uint64_t)atol(tok[3])*7919+1; nb=atol(tok[4]); if(nb<1)nb=1; b=malloc(nb+16); for(long i=0;i<nb;i++) b[i]=(unsigned char)rng_u32(&r); b[0]&=0xFE; memset(b+nb,0,16); W=0; gp=atoll(tok[5]); }
     else { W=atoi(tok[3]); gp=atoll(tok[4]); eos=atoi(tok[5]); nosil=(nt>6&&!strcmp(tok[6],"ns")); b=pack_fields(tok,6,nt,&nb); }
     ogg_packet op; memset(&op,0,sizeof op); op.packet=b; op.bytes=nb; op.packetno=3+k; op.granulepos=gp; op.e_o_s=eos;
-    const char *fx=find_opt(tok,nt,"fx="), *yx=find_opt(tok,nt,"yx=");
+    const char *fx=find_opt(tok,nt,"fx="), *yx=find_opt(tok,nt,"yx="), *rx=find_opt(tok,nt,"rx="), *cx=find_opt(tok,nt,"cx=");
     static int fitbuf[80], ybuf[8192]; int nfit=-1, ny=0;
 #ifdef XIPH_VORBIS_VERIF
     if(fx||yx){ for(int i=0;i<8192;i++) ybuf[i]=-1; vorbis_verif_fit=fitbuf; vorbis_verif_nfit=80; vorbis_verif_ybuf=ybuf; vorbis_verif_ylen=8192; }
+#endif
+#ifdef XIPH_VORBIS_VERIF
+    if(rx||cx){ g_spec_seen=0; memset(g_specn,0,sizeof g_specn); vorbis_verif_spectrum=spec_probe; }
 #endif
     int rs=vorbis_synthesis(&x->vb,&op); long used=oggpack_bits(&x->vb.opb); int rW=x->vb.W; int rb=-9999; if(rs==0) rb=vorbis_synthesis_blockin(&x->vd,&x->vb); free(b);
 #ifdef XIPH_VORBIS_VERIF
@@ -136,6 +147,9 @@ static void cmd(char **tok,int nt){
     ev_begin("Synthesis"); ev_i("d",di); ev_i("k",k); ev_i("mut",rnd); ev_i("W",rs==0?rW:W); ev_i("cW",rnd?(rs==0?rW:W):W); ev_i("no",op.packetno); ev_i("gp",op.granulepos); ev_i("eos",op.e_o_s); ev_i("bytes",nb);
     ev_i("rs",rs); ev_i("used",used); ev_i("rb",rb); ev_i("gpf",0); ev_i("syn",1); ev_i("xused",rnd?-1:g_packed_bits);
     if(fx&&nfit>=0){ ev_arr_begin("fit"); for(int i=0;i<nfit;i++) ev_arr_i(fitbuf[i]); ev_arr_end(); ev_arr_begin("xfit"); for(const char *q=fx;*q;){ ev_arr_i(strtol(q,(char**)&q,10)); if(*q==',')q++; } ev_arr_end(); }
+#ifdef XIPH_VORBIS_VERIF
+    if(rx||cx){ vorbis_verif_spectrum=0; if(g_spec_seen){ if(rx){ ev_spec("rv",0,x->vi.channels); ev_spec_expected("xrv",rx); } if(cx){ ev_spec("cv",1,x->vi.channels); ev_spec_expected("xcv",cx); } } }
+#endif
     if(yx&&ny>0){ ev_arr_begin("yc"); for(int i=0;i<ny;i++) ev_arr_i(ybuf[i]); ev_arr_end(); ev_arr_begin("xyc"); for(const char *q=yx;*q;){ ev_arr_i(strtol(q,(char**)&q,10)); if(*q==',')q++; } ev_arr_end(); }
     ev_dst(x); ev_end();
     if(rs==0&&rb==0){ x->lastk=k; }
